@@ -204,7 +204,8 @@ func (vc *VC) eval(e *SExpr, env *Env) *Val {
 		var decls, guards []string
 		for _, b := range e.Binders {
 			t := vc.resolveType(b.Type, env.pkg, env.imports, true)
-			name := "q_" + sanitize(b.Name)
+			vc.nquant++
+			name := fmt.Sprintf("q_%s_%d", sanitize(b.Name), vc.nquant)
 			decls = append(decls, fmt.Sprintf("(%s %s)", name, vc.sortOf(t)))
 			inner = inner.with(b.Name, &Val{T: name, Ty: t})
 			if rf := vc.rangeFact(name, t); rf != "" {
@@ -654,10 +655,10 @@ func (vc *VC) evalCall(e *SExpr, env *Env) *Val {
 			} else if vc.sortOf(x.Ty) == "Iface" {
 				t = fmt.Sprintf("(i_ref %s)", x.T)
 			}
-			return &Val{T: fmt.Sprintf("(and (> %s 0) (not (select %s %s)))", t, vc.getIn(env.old, "alloc", "(Array Int Bool)"), t), Ty: boolT}
+			return &Val{T: fmt.Sprintf("(and (> %s 0) (>= %s %s) (< %s %s))", t, t, vc.getIn(env.old, "alloc", "Int"), t, vc.getIn(env.st, "alloc", "Int")), Ty: boolT}
 		case "allocated":
 			x := vc.eval(args[0], env)
-			return &Val{T: fmt.Sprintf("(select %s %s)", vc.getIn(env.st, "alloc", "(Array Int Bool)"), x.T), Ty: boolT}
+			return &Val{T: fmt.Sprintf("(and (> %s 0) (< %s %s))", x.T, x.T, vc.getIn(env.st, "alloc", "Int")), Ty: boolT}
 		case "istype":
 			x := vc.eval(args[0], env)
 			tv := vc.eval(args[1], env)
@@ -674,6 +675,10 @@ func (vc *VC) evalCall(e *SExpr, env *Env) *Val {
 			x := vc.eval(args[0], env)
 			tv := vc.eval(args[1], env)
 			return &Val{T: fmt.Sprintf("(i_ref %s)", x.T), Ty: types.NewPointer(tv.TypeV)}
+		case "asiface":
+			// the interface value holding pointer x (dynamic type = static type of x)
+			x := vc.eval(args[0], env)
+			return &Val{T: fmt.Sprintf("(mk_iface %d %s)", vc.typeTag(x.Ty), x.T), Ty: types.NewInterfaceType(nil, nil)}
 		case "tag":
 			x := vc.eval(args[0], env)
 			return &Val{T: fmt.Sprintf("(i_tag %s)", x.T), Ty: MathInt}
